@@ -12,13 +12,68 @@ def shape():
     return els
 
 
+SIM_CFG = """SPECIFICATION SSpec
+CONSTANTS
+  TabNames = {"T1"}
+  Zs = {1, 8}
+  CtorIso <- MCCtor
+  IsoOf <- MCIso
+  ExtraIso <- MCExtra
+  IonOf <- MCIon
+  MaxLen = %d
+INVARIANT EmitHist
+"""
+
+
+def replay_behaviours(ctx, quick):
+    maxlen = 14 if quick else 22
+    res = tlc.run("MC_CoreSim", SIM_CFG % maxlen, workers=16, simulate="num=%d" % (25 if quick else 400), depth=maxlen + 3,
+                  seed=ctx.seed + 8, timeout=900)
+    if res.rc != 0:
+        ctx.error("MC_CoreSim: " + tlc.brief(res.out))
+        return False
+    by_prefix = {}
+    for x in res.printed():
+        h = x["hist"]
+        k = json.dumps([s["act"] for s in h[:-1]], sort_keys=True)
+        by_prefix.setdefault(k, {})[json.dumps(h[-1]["act"], sort_keys=True)] = h
+    rng = random.Random(ctx.seed)
+    hs = []
+    for k in sorted(by_prefix):
+        v = by_prefix[k]
+        for kk in rng.sample(sorted(v), min(3, len(v))):
+            hs.append(v[kk])
+    res.distinct = len(hs)
+    ctx.tlc("MC_CoreSim (-simulate, behaviours of %d calls with the heap after each)" % maxlen, res)
+    els = shape()
+    outs = forkrun.map_fresh("ptv.corereplay", "replay", [{"seed": ctx.seed * 100003 + i, "hist": h, "shape": els} for i, h in enumerate(hs)])
+    ops = {}
+    for h, (st, o) in zip(hs, outs):
+        if st != "ok":
+            ctx.error("replay child failed: " + o[-800:])
+            return False
+        ctx.cov["traces_replayed_into_impl"] = ctx.cov.get("traces_replayed_into_impl", 0) + 1
+        for s_ in o["steps"]:
+            k = "%s:%s" % (s_["op"], s_["want"])
+            ops[k] = ops.get(k, 0) + 1
+        for pr in o["problems"]:
+            ctx.violation(dict(pr, kind="core-replay", calls=[s_["act"] for s_ in h[1:pr["step"] + 1]]))
+    ctx.count("replayed calls", sum(ops.values()))
+    ctx.cov["replayed_calls_by_action_and_outcome"] = ops
+    return True
+
+
 def run(ctx):
     quick = ctx.tier == "quick"
     # ---- design level: TLC on the small identity model
-    res = tlc.run("MC_Core", os.path.join(tlc.VERIF, "mc", "MC_Core.cfg"), workers=16, timeout=900)
-    ctx.tlc("MC_Core exhaustive (2 tables, {H, D, O}, lazy ions, restore, change_table)", res)
+    res = tlc.run("MC_Core", os.path.join(tlc.VERIF, "mc", "MC_Core_quick.cfg" if quick else "MC_Core.cfg"), workers=16, timeout=1800)
+    ctx.tlc("MC_Core exhaustive (public + 1 private table, H with D and a second element, mass loader, lazy ions%s, restore, "
+            "change_table, dropped table references)" % ("" if quick else ", add_isotope of a new mass number"), res)
     if res.rc != 0:
         ctx.error("MC_Core: " + tlc.brief(res.out))
+        return
+    # ---- spec -> code: behaviours of the same model (TLC -simulate, history variable) replayed call by call
+    if not replay_behaviours(ctx, quick):
         return
     # ---- code -> spec: exhaustive sweep of the real tables, validated by TLC
     els = shape()
